@@ -209,8 +209,20 @@ pub fn run_history(start: &MPos, seed: u64, flavor: Flavor, max_ops: usize) -> O
                     0 if !bad.is_empty() => {
                         let m = **rng.pick(&bad);
                         let lm = to_move(&m)?;
-                        let ok = ch.push(lm).is_ok();
-                        events.push(Event { ev: Ev::Push { how: "Move", what: format!("illegal {}", m.uci()), denotes: Denote::Exact(None), ok }, obs: observe(&ch) });
+                        // the same pseudo-legal but illegal move through every value kind, including
+                        // coordinate-form text handed to the SAN entry points
+                        let t = m.uci();
+                        let (how, ok) = match rng.below(5) {
+                            0 => ("Move", ch.push(lm).is_ok()),
+                            1 => ("uci::Move", ch.push(lm.uci()).is_ok()),
+                            2 => ("Uci", ch.push(make::Uci(t.as_str())).is_ok()),
+                            3 => ("San", ch.push(make::San(t.as_str())).is_ok()),
+                            _ => match t.parse::<owlchess::moves::san::Move>() {
+                                Ok(sm) => ("san::Move", ch.push(sm).is_ok()),
+                                Err(_) => ("Move", ch.push(lm).is_ok()),
+                            },
+                        };
+                        events.push(Event { ev: Ev::Push { how, what: format!("illegal {}", t), denotes: Denote::Exact(None), ok }, obs: observe(&ch) });
                     }
                     1 => {
                         let ok = ch.push(Move::NULL).is_ok();
